@@ -7,7 +7,7 @@ import subprocess
 import sys
 import xml.etree.ElementTree as ET
 
-WT = "/tmp/mut"
+WT = os.environ.get("MUT_WT", "/tmp/mut")
 patch = os.path.abspath(sys.argv[1])
 env = dict(os.environ, CARGO_TARGET_DIR=WT + "/target", CARGO_NET_OFFLINE="true")
 env.pop("RUSTFLAGS", None)
